@@ -886,16 +886,22 @@ def enc_tie(ctx, line, g, l, v):
 
 class C18:
     prop = "C18"
-    lean_module = "Ogorek.Props.C18"
+    lean_module = "Ogorek.Props.C18RT"
     theorems = ["Ogorek.C18_other_insn_no_call", "Ogorek.C18_handleRef", "Ogorek.C18_persid", "Ogorek.C18_binpersid",
-                "Ogorek.C18_one_call", "Ogorek.C18_ref_p0", "Ogorek.C18_ref_bin", "Ogorek.C18_ref_unmapped"]
+                "Ogorek.C18_one_call", "Ogorek.C18_ref_p0", "Ogorek.C18_ref_bin", "Ogorek.C18_ref_unmapped",
+                "Ogorek.C18_inverse_hooks", "Ogorek.C03_roundtrip_hook", "Ogorek.repU_of_rep"]
     trusted_base = TB_COMMON + ["PersistentRef ids returned by the application do not themselves contain application objects (substitution model)"]
     level_text = ("Lean theorems: only PERSID/BINPERSID invoke PersistentLoad (C18_other_insn_no_call, by cases over all instructions), "
                   "each exactly once with Ref{decoded id}, a non-nil answer replaces the Ref, nil keeps it, an error aborts with an error "
                   "(C18_handleRef, C18_persid, C18_binpersid, C18_one_call); a pointer-to-struct mapped by PersistentRef is encoded exactly "
                   "as that Ref — PERSID with single-line string id at protocol 0 else the documented error, id+BINPERSID at protocols >= 1 "
-                  "(C18_ref_p0, C18_ref_bin, C18_ref_unmapped). PARTIAL: the inverse-hooks round trip is tied by correspondence (it composes "
-                  "these with the C03 round trip, whose proof covers the binary fragment). Tie: instrumented hooks on both sides: call "
+                  "(C18_ref_p0, C18_ref_bin, C18_ref_unmapped). The inverse pair as a whole: Encode with a PersistentRef mapping every "
+                  "application object of a graph to a string id, then Decode - from any state, any protocol 0-5, both modes - with a "
+                  "PersistentLoad that answers those ids with the objects they came from, returns the graph again, the same objects at "
+                  "the same places and everything else identical in type and content (C18_inverse_hooks; from C03_roundtrip_hook, the "
+                  "round-trip theorem generalised to an arbitrary hook, and the substitution lemma repU_of_rep). PARTIAL: ids that are "
+                  "not plain strings (tuples holding further mapped objects) and Refs inside dict keys are outside the theorem; at "
+                  "protocol 0 the float-text hypothesis of C03. Tie: instrumented hooks on both sides: call "
                   "sequences, results, and Encode->Decode of object graphs with 0-20 references.")
     level_note = "trusted: Lean kernel + standard axioms; decoder/encoder models; the application hooks are parameters"
     technique = "Lean 4 proof (case analysis over instructions; encoder substitution lemma) + differential correspondence with instrumented hooks"
